@@ -120,6 +120,8 @@ def show(v, depth=0):
         return '~%s' % show(v[1])
     if k == 'addr':
         return '&' + show(v[1])
+    if k == 'ptrint':
+        return show(v[1])
     if k == 'var':
         return v[2]
     if k == 'field':
@@ -159,6 +161,30 @@ def symbols(v, out=None):
                 if isinstance(x, tuple):
                     symbols(x, out)
     return out
+
+
+def callee_targs(key):
+    """template arguments of a callee key such as std::bit_cast<unsigned long, T *>(...)"""
+    i = key.find('<')
+    if i < 0:
+        return None
+    depth, j, args, cur = 0, i, [], ''
+    for ch in key[i:]:
+        if ch == '<':
+            depth += 1
+            if depth == 1:
+                continue
+        elif ch == '>':
+            depth -= 1
+            if depth == 0:
+                args.append(cur.strip())
+                break
+        elif ch == ',' and depth == 1:
+            args.append(cur.strip())
+            cur = ''
+            continue
+        cur += ch
+    return args
 
 
 ATOMIC_RECORDS = ('std::atomic<', 'std::__atomic_base<', 'std::atomic_flag', 'std::__atomic_flag_base')
@@ -549,7 +575,16 @@ class Sim:
         if name in ('std::bit_cast', 'std::move', 'std::forward', 'std::addressof', 'std::as_const'):
             x = self.ev(args_nodes[0])
             if name == 'std::bit_cast':
-                return self.rv(x)
+                v = self.rv(x)
+                # std::bit_cast<To, From>: pointer -> integer keeps a marker (the value is an address)
+                m = callee_targs(n.get('callee', ''))
+                if m and not m[0].rstrip().endswith('*') and len(m) > 1 and m[1].rstrip().endswith('*'):
+                    if isinstance(v, tuple) and v and v[0] == 'ptrint':
+                        return v
+                    return ('ptrint', v)
+                if isinstance(v, tuple) and v and v[0] == 'ptrint' and m and m[0].rstrip().endswith('*'):
+                    return v[1]
+                return v
             if name == 'std::addressof':
                 return self.addr_of(self.lv_path(x))
             return x
@@ -755,7 +790,9 @@ class Sim:
         self.decided = {}
         self.returned = False
         self.ret = None
+        self.ret_line = None
         blocks = self.eng.block_map(fn)
+        headers = self.eng.loop_headers(fn)
         visits = {}
         first_visit_mark = {}
         b = blocks[fn['entry']]
@@ -765,7 +802,9 @@ class Sim:
             visits[bid] = visits.get(bid, 0) + 1
             if self.depth == 0:
                 self.path.blocks.append(bid)
-            if visits[bid] == 1:
+            if bid not in headers:
+                pass
+            elif visits[bid] == 1:
                 first_visit_mark[bid] = len(self.writes)
             elif visits[bid] == 2:
                 # widening: everything written since the first visit becomes unknown
@@ -872,12 +911,39 @@ class Engine:
         self._em = {}
         self._spin = {}
         self._paths = {}
+        self._lh = {}
 
     def block_map(self, fn):
         k = fn['key']
         if k not in self._bm:
             self._bm[k] = {b['id']: b for b in fn['blocks']}
         return self._bm[k]
+
+    def loop_headers(self, fn):
+        """targets of back edges (DFS from the entry block)"""
+        k = fn['key']
+        if k in self._lh:
+            return self._lh[k]
+        blocks = self.block_map(fn)
+        heads, state = set(), {}
+        stack = [(fn['entry'], iter([s for s in blocks[fn['entry']]['succs'] if s is not None]))]
+        state[fn['entry']] = 1
+        while stack:
+            node, it = stack[-1]
+            adv = False
+            for s in it:
+                if state.get(s) == 1:
+                    heads.add(s)
+                elif s not in state:
+                    state[s] = 1
+                    stack.append((s, iter([x for x in blocks[s]['succs'] if x is not None])))
+                    adv = True
+                    break
+            if not adv:
+                state[node] = 2
+                stack.pop()
+        self._lh[k] = heads
+        return heads
 
     def elem_map(self, fn):
         k = fn['key']
